@@ -29,6 +29,14 @@
 #ifndef MRC_SMALL
 #define MRC_SMALL 40
 #endif
+/* -DMRC_NO_LOG: keep only the counters (needed inside contracted loops, where
+ * the counters are havocked and a symbolically indexed store into an array of
+ * structures is more than cbmc's array theory accepts) */
+#ifdef MRC_NO_LOG
+#define MRC_LOGGING(idx) 0
+#else
+#define MRC_LOGGING(idx) ((idx) < MRC_LOG)
+#endif
 
 typedef struct {
 	sqfs_u64 block;
@@ -92,35 +100,34 @@ static void mrc_init(void)
 #ifndef MRC_IS_PAYLOAD
 #define MRC_IS_PAYLOAD(p, n) ((n) > MRC_SMALL)
 #endif
+/* Inside a contracted loop the destination pointer of the function under
+ * test is havocked; cbmc would then treat every object of the program as a
+ * possible target of the delivery. MRC_ON_READ asserts which object and
+ * offset it is; MRC_REBASE names that place through a pointer symex knows. */
+#ifndef MRC_REBASE
+#define MRC_REBASE(p) (p)
+#endif
 #ifndef MRC_FIXUP	/* (reader, buf, n, index of this read): make a tag concrete */
 #define MRC_FIXUP(m, b, n, idx) ((void)0)
 #endif
 
 int sqfs_meta_reader_read(sqfs_meta_reader_t *m, void *data, size_t size)
 {
-	sqfs_u8 *b = data;
+	sqfs_u8 *b;
 	sqfs_u64 val = 0, val_hi = 0;
 
 	VERIF_ASSERT(m != NULL && (m == g_mrc_rd0 || m == g_mrc_rd1),
 		     ENV_NAME("meta_read.reader"));
-	VERIF_ASSERT(size == 0 || VERIF_W_OK(data, size),
-		     ENV_NAME("meta_read.buffer_writable"));
 	MRC_ON_READ(m, data, size);
+	b = (sqfs_u8 *)MRC_REBASE(data);
+	VERIF_ASSERT(size == 0 || VERIF_W_OK(b, size),
+		     ENV_NAME("meta_read.buffer_writable"));
 	++g_mrc.ops;
-	if (g_mrc.reads < MRC_LOG) {
+	if (MRC_LOGGING(g_mrc.reads)) {
 		g_mrc.r[g_mrc.reads].rd = m;
 		g_mrc.r[g_mrc.reads].buf = data;
 		g_mrc.r[g_mrc.reads].n = size;
 		g_mrc.r[g_mrc.reads].seq = g_mrc.ops;
-	}
-	if (verif_nd_bool("mr.fail")) {
-		int e = env_nd_error("mr.err");
-		g_mrc.failed = true;
-		g_mrc.pos_valid = false;
-		if (g_mrc.reads < MRC_LOG)
-			g_mrc.r[g_mrc.reads].ret = e;
-		++g_mrc.reads;
-		return e;
 	}
 	if (!MRC_IS_PAYLOAD(data, size)) {
 		VERIF_ASSERT(size <= MRC_SMALL, ENV_NAME("meta_read.small_record"));
@@ -140,14 +147,29 @@ int sqfs_meta_reader_read(sqfs_meta_reader_t *m, void *data, size_t size)
 		MRC_V2(12) MRC_V2(13) MRC_V2(14) MRC_V2(15)
 	} else {
 		sqfs_u8 v = verif_nd_u8("mr.vk");
+#ifdef VERIF_REPLAY
+		(memset)(b, v ^ 0x55, size);	/* natively: the whole transfer */
+#endif
 		if (g_k < size)
 			b[g_k] = v;
 		val = v;
 	}
+	/* the transfer above also stands for "buffer contents arbitrary after
+	   a failure"; deciding the outcome only now keeps concrete tags
+	   (MRC_FIXUP) concrete on every path */
+	if (verif_nd_bool("mr.fail")) {
+		int e = env_nd_error("mr.err");
+		g_mrc.failed = true;
+		g_mrc.pos_valid = false;
+		if (MRC_LOGGING(g_mrc.reads))
+			g_mrc.r[g_mrc.reads].ret = e;
+		++g_mrc.reads;
+		return e;
+	}
 	g_mrc.pos.block = verif_nd_u64("mr.pos.block");
 	g_mrc.pos.off = verif_nd_size("mr.pos.off");
 	g_mrc.bytes += size;
-	if (g_mrc.reads < MRC_LOG) {
+	if (MRC_LOGGING(g_mrc.reads)) {
 		g_mrc.r[g_mrc.reads].val = val;
 		g_mrc.r[g_mrc.reads].val_hi = val_hi;
 		g_mrc.r[g_mrc.reads].after = g_mrc.pos;
@@ -184,7 +206,7 @@ int sqfs_meta_reader_seek(sqfs_meta_reader_t *m, sqfs_u64 block_start,
 		g_mrc.pos.off = offset;
 		g_mrc.pos_valid = true;
 	}
-	if (g_mrc.seeks < MRC_LOG) {
+	if (MRC_LOGGING(g_mrc.seeks)) {
 		g_mrc.s[g_mrc.seeks].rd = m;
 		g_mrc.s[g_mrc.seeks].to.block = block_start;
 		g_mrc.s[g_mrc.seeks].to.off = offset;
